@@ -32,22 +32,28 @@ import (
 
 func init() {
 	Register(&Check{ID: "C35", World: "B/cluster + real fileConfig (race detector)", RaceMode: true,
-		Real: append(append([]string{}, bReal...), "config.fileConfig (configuration runs: Reload, every getter, reload callbacks)"),
+		Real: append(append([]string{}, bReal...), "config.fileConfig (configuration runs: Reload, every getter, reload callbacks)", "configwatcher.ConfigWatcher, health.Health, pubsub.LocalPubSub (lifecycle runs: start, use, stop)"),
 		Gen: func(r *Rng, tier string, p *Plan) {
-			if r.Bool(0.12) {
+			switch f := r.Float(); {
+			case f < 0.12:
 				genCfgRace(r, tier, p)
-				return
+			case f < 0.18:
+				genLifecycle(r, tier, p)
+			default:
+				genRace(r, tier, p)
 			}
-			genRace(r, tier, p)
 		},
 		Run: func(t *testing.T, p *Plan) *Outcome {
 			if p.On("cfgrace") {
 				return runCfgRace(t, p)
 			}
+			if p.On("lifecycle") {
+				return runLifecycle(t, p)
+			}
 			return runRace(t, p)
 		},
 		Stub:      append(append([]string{}, bStub...), "doubles run stateless; oracles other than the race detector are off"),
-		OwnProbes: []string{"race_run_with_reload", "race_run_with_stress_toggle", "race_run_with_memory_pressure", "race_run_redis_membership", "race_run_with_shutdown_under_load", "race_run_query_endpoints", "race_run_span_under_stress", "race_run_real_fileconfig"}})
+		OwnProbes: []string{"race_run_with_reload", "race_run_with_stress_toggle", "race_run_with_memory_pressure", "race_run_redis_membership", "race_run_with_shutdown_under_load", "race_run_query_endpoints", "race_run_span_under_stress", "race_run_real_fileconfig", "race_run_component_lifecycle"}})
 }
 
 func genRace(r *Rng, tier string, p *Plan) {
